@@ -106,8 +106,8 @@ def cases(draw, max_files=8):
     for _ in range(draw(st.sampled_from([0, 1, 0, 2, 1, 0]))):
         case["cache_ops"].append({
             "op": draw(st.sampled_from(["recreate", "missing", "recreate"])),
-            "i": draw(st.integers(0, 30)),
-            "when": draw(st.sampled_from(["pre3", "mid", "pre3"])),
+            "i": draw(st.sampled_from([1, 0, 2, 0, 5, 0, 3])),   # 0 = the object shared by most files
+            "when": draw(st.sampled_from(["pre1", "pre3", "mid", "pre3", "pre1"])),
         })
     if any(o["op"] == "recreate" for o in case["cache_ops"]) and draw(st.sampled_from([True, False, True])):
         # a replaced object matters most to files that are hard links to the old inode
@@ -341,18 +341,74 @@ def run_case(case, ctx):
                         seen.add("ro")
                         viols.append(Viol(f"copy-readonly:{label}", f"after {label} checkout the copy {rel!r} is read-only (0o444)"))
 
+            aux = os.path.join(d, "aux")
+            os.mkdir(aux)
+            naux = [0]
+            refs = {}
+            for _rel, _oid in manifest.items():
+                refs[_oid] = refs.get(_oid, 0) + 1
+            oids = sorted(refs, key=lambda o: (-refs[o], o))  # index 0 = the most shared object
+
+            def drop_object(i):
+                cache_touched[0] = True
+                oid = oids[i % len(oids)]
+                p = cpath(oid)
+                data, old_ino = ref.read(p), os.lstat(p).st_ino
+                os.unlink(p)
+                return oid, data, old_ino
+
+            def add_object(odb, oid, data):
+                naux[0] += 1
+                tmp = os.path.join(aux, f"re{naux[0]}")
+                with open(tmp, "xb") as f:
+                    f.write(data)
+                odb.add(tmp, fs, oid)  # the store's own add path: same oid, new file, protected
+                if ref.read(cpath(oid)) != data:
+                    raise HarnessError("re-added cache object does not hold its bytes")
+
+            def cache_ops(when, odb, tgt):
+                for o in case.get("cache_ops", []):
+                    if o["op"] == "recreate" and when == ("pre3" if o["when"] == "pre1" else o["when"]):
+                        oid, data, old_ino = drop_object(o["i"])
+                        add_object(odb, oid, data)
+                        classes.append(f"cache-object-recreated:{when}")
+                        if any(r["kind"] == "file" and r["ino"] == old_ino and r["nlink"] > 1
+                               for r in snap_ws(ws).values()):
+                            classes.append("ws-hardlinks-share-replaced-object")
+                    elif o["op"] == "missing" and when == ("pre3" if o["when"] == "mid" else o["when"]):
+                        # a checkout attempt while one object is missing (a refusal / partial result is allowed),
+                        # then the object is added and the judged checkouts follow
+                        oid, data, _ = drop_object(o["i"])
+                        before = snap_cache(cache_dir)
+                        try:
+                            checkout(ws, fs, tgt, odb, state=state, force=True)
+                            classes.append(f"attempt-with-missing-object:{when}:returned")
+                        except (CheckoutError, FileNotFoundError) as exc:
+                            # the premise "cached target" does not hold for this attempt: any refusal is accepted
+                            # (with symlinks, or a single-file target under state, the failure surfaces as
+                            # FileNotFoundError instead of CheckoutError - noted, not judged)
+                            classes.append(f"attempt-with-missing-object:{when}:{type(exc).__name__}")
+                        except (LinkError, PromptError) as exc:
+                            viols.append(Viol(f"raised:attempt:{type(exc).__name__}",
+                                              f"checkout attempt with a missing object raised {type(exc).__name__}"))
+                        cd_ = cache_diff(before, snap_cache(cache_dir), local)
+                        if cd_:
+                            viols.append(Viol(f"cache-changed:{cd_[0]}:attempt", f"attempt with a missing object: {cd_[1]}"))
+                        add_object(odb, oid, data)
+
             # ---- phase 1: first checkout with L1 -----------------------------------------
             target1 = obj
-            if call("initial", odb1, target1) == "raised":
+            cache_ops("pre1", odb1, target1)
+            if viols:
+                return Result(viols, False, classes)
+            # after an attempt that found an object missing the workspace may be partial: converge with force
+            if call("initial", odb1, target1, **({"force": True} if cache_touched[0] else {})) == "raised":
                 return Result(viols, False, classes)
             check_equal("initial")
             if viols:
                 return Result(viols, False, classes)
 
             # ---- phase 2: edits under the harness clock ----------------------------------
-            aux = os.path.join(d, "aux")
-            os.mkdir(aux)
-            naux = [0]
             t_paths = sorted(flat)
             t_dirs = set()
             for rel in flat:
@@ -457,55 +513,7 @@ def run_case(case, ctx):
                     classes.append("single-file-still-linked")
                     if case["l2"] == "copy" and not local:
                         classes.append("single-file-still-linked:[copy]:generic")
-            oids = sorted(set(manifest.values()))
-
-            def drop_object(i):
-                cache_touched[0] = True
-                oid = oids[i % len(oids)]
-                p = cpath(oid)
-                data, old_ino = ref.read(p), os.lstat(p).st_ino
-                os.unlink(p)
-                return oid, data, old_ino
-
-            def add_object(oid, data):
-                naux[0] += 1
-                tmp = os.path.join(aux, f"re{naux[0]}")
-                with open(tmp, "xb") as f:
-                    f.write(data)
-                odb2.add(tmp, fs, oid)  # the store's own add path: same oid, new file, protected
-                if ref.read(cpath(oid)) != data:
-                    raise HarnessError("re-added cache object does not hold its bytes")
-
-            def cache_ops(when):
-                for o in case.get("cache_ops", []):
-                    if o["op"] == "recreate" and o["when"] == when:
-                        oid, data, old_ino = drop_object(o["i"])
-                        add_object(oid, data)
-                        classes.append(f"cache-object-recreated:{when}")
-                        if any(r["kind"] == "file" and r["ino"] == old_ino for r in snap_ws(ws).values()):
-                            classes.append("ws-hardlink-to-replaced-object")
-                    elif o["op"] == "missing" and when == "pre3":
-                        # a checkout attempt while one object is missing (CheckoutError / partial result allowed),
-                        # then the object is added and the judged checkouts follow
-                        oid, data, _ = drop_object(o["i"])
-                        before = snap_cache(cache_dir)
-                        try:
-                            checkout(ws, fs, target, odb2, state=state, force=True)
-                            classes.append("attempt-with-missing-object:returned")
-                        except (CheckoutError, FileNotFoundError) as exc:
-                            # the premise "cached target" does not hold for this attempt: any refusal is accepted
-                            # (a single-file target under state surfaces the failed link as FileNotFoundError
-                            # from the link-record step instead of CheckoutError - noted, not judged)
-                            classes.append(f"attempt-with-missing-object:{type(exc).__name__}")
-                        except (LinkError, PromptError) as exc:
-                            viols.append(Viol(f"raised:attempt:{type(exc).__name__}",
-                                              f"checkout attempt with a missing object raised {type(exc).__name__}"))
-                        cd_ = cache_diff(before, snap_cache(cache_dir), local)
-                        if cd_:
-                            viols.append(Viol(f"cache-changed:{cd_[0]}:attempt", f"attempt with a missing object: {cd_[1]}"))
-                        add_object(oid, data)
-
-            cache_ops("pre3")
+            cache_ops("pre3", odb2, target)
             if viols:
                 return Result(viols, False, classes)
             if case["plan"] == "force-first":
@@ -519,7 +527,7 @@ def run_case(case, ctx):
                         viols.append(Viol("repeat-not-noop", f"second checkout returned {r!r}, expected None (nothing to do)"))
                     _same_snapshot(viols, s0, snap_ws(ws), "repeat")
                 if not viols:
-                    cache_ops("mid")
+                    cache_ops("mid", odb2, target)
                     # precondition of observation 6.2 #7, for the histogram
                     snap = snap_ws(ws)
                     if any(r["kind"] == "symlink" and os.stat(full(rel)).st_nlink > 1 for rel, r in snap.items()
@@ -541,7 +549,7 @@ def run_case(case, ctx):
                         check_equal("relink2")
                         check_types("relink2", l2)
                 if not viols:
-                    cache_ops("mid")
+                    cache_ops("mid", odb2, target)
                     s0 = snap_ws(ws)
                     r = call("repeat", odb2, target, force=True)
                     if r not in (None, "raised"):
